@@ -1258,8 +1258,6 @@ pub fn check_fired(name: &str, pre: &Snap, post: &Snap) -> RefResult {
             let want = s as f64 / n as f64;
             let ok = if n == 0 {
                 got.is_nan()
-            } else if s < i32::MIN as i64 || s > i32::MAX as i64 {
-                true // sum not representable in the element type: any float
             } else {
                 ((got as f64) - want).abs() <= 1e-6 * want.abs().max(1.0) * 4.0
             };
@@ -1415,7 +1413,9 @@ pub fn check_fired(name: &str, pre: &Snap, post: &Snap) -> RefResult {
                 let arg = 2.0 * std::f32::consts::PI * x * k as f32 + phi;
                 let want = a * arg.sin();
                 let got = fl(post.fv[0][k]);
-                let ok = if want.is_nan() || got.is_nan() {
+                let ok = if want == got {
+                    true
+                } else if want.is_nan() || got.is_nan() {
                     // a non-finite intermediate may or may not survive a different association
                     want.is_nan() == got.is_nan() || !arg.is_finite() || !(a * 1.0).is_finite()
                 } else {
